@@ -211,11 +211,37 @@ fn check_conversions(ctx: &mut Ctx, rng: &mut Rng) {
         };
         chk(&format!("Dual2::from(Number::{})", KIND[k]), dual2_same(&Dual2::from(nx.clone()), &want2) && dual2_same(&Dual2::from(&nx), &want2), &mut bad);
     }
+    // raising a float with the plain constructors: exactly the requested names, unit sensitivity, zero Hessian;
+    // `new_from` additionally lands on the other number's variable list (shared storage)
+    {
+        let names: Vec<String> = (0..1 + (v.to_bits() % 3) as usize).map(|i| format!("n{}", i)).collect();
+        let a = Dual::new(v, names.clone());
+        let b = Dual2::new(v, names.clone());
+        chk("Dual::new", bits_eq(a.real(), v) && a.vars().iter().eq(names.iter()) && a.dual().len() == names.len() && a.dual().iter().all(|x| *x == 1.0), &mut bad);
+        chk("Dual2::new", bits_eq(b.real(), v) && b.vars().iter().eq(names.iter()) && b.dual().len() == names.len() && b.dual().iter().all(|x| *x == 1.0) && b.dual2().dim() == (names.len(), names.len()) && b.dual2().iter().all(|x| *x == 0.0), &mut bad);
+        let sub1: Vec<String> = d1.vars().iter().enumerate().filter(|(i, _)| (v.to_bits() >> i) & 1 == 1).map(|(_, n)| n.clone()).collect();
+        let f1 = Dual::new_from(&d1, v, sub1.clone());
+        let g1 = f1.gradient1(d1.vars().iter().cloned().collect());
+        chk(
+            "Dual::new_from",
+            bits_eq(f1.real(), v) && f1.ptr_eq(&d1) && f1.dual().len() == d1.vars().len() && d1.vars().iter().enumerate().all(|(i, n)| g1[i] == if sub1.contains(n) { 1.0 } else { 0.0 }),
+            &mut bad,
+        );
+        let sub2: Vec<String> = d2.vars().iter().enumerate().filter(|(i, _)| (v.to_bits() >> (i + 3)) & 1 == 1).map(|(_, n)| n.clone()).collect();
+        let f2 = Dual2::new_from(&d2, v, sub2.clone());
+        let g2 = f2.gradient1(d2.vars().iter().cloned().collect());
+        let n2 = d2.vars().len();
+        chk(
+            "Dual2::new_from",
+            bits_eq(f2.real(), v) && f2.ptr_eq(&d2) && f2.dual().len() == n2 && f2.dual2().dim() == (n2, n2) && f2.dual2().iter().all(|x| *x == 0.0) && d2.vars().iter().enumerate().all(|(i, n)| g2[i] == if sub2.contains(n) { 1.0 } else { 0.0 }),
+            &mut bad,
+        );
+    }
     chk("Number::from(f64)", num_same(&Number::from(v), &Number::F64(v)) && num_same(&Number::from(&v), &Number::F64(v)), &mut bad);
     chk("Number::from(Dual)", num_same(&Number::from(d1.clone()), &Number::Dual(d1.clone())) && num_same(&Number::from(&d1), &Number::Dual(d1.clone())), &mut bad);
     chk("Number::from(Dual2)", num_same(&Number::from(d2.clone()), &Number::Dual2(d2.clone())) && num_same(&Number::from(&d2), &Number::Dual2(d2.clone())), &mut bad);
-    ctx.eval(30);
-    ctx.asserted(30);
+    ctx.eval(34);
+    ctx.asserted(34);
     ctx.class("from-impls");
     if !bad.is_empty() {
         ok = false;
@@ -568,7 +594,7 @@ impl Prop for C18 {
         tier.pick(400_000, 20_000_000)
     }
     fn rule(&self) -> String {
-        "The full table, each cell on seeded random values: 3 kinds x 3 target orders x {set_order, set_order_clone} with requested-name lists containing duplicates; all From impls (owned and borrowed); 11 binary operators (+ - * / % == < <= > >= abs_sub) x all 9 kind pairings x ownership (mixed Dual/Dual2 pairings must refuse), Number.f64 / f64.Number forms, unary neg/pow/exp/log/norm_cdf/inv_norm_cdf/abs, Sum, Zero/One. Results are compared bit-for-bit (kind, value, variable list, derivative arrays) with the same operation executed directly on the contained types. distinct_nontrivial = distinct (phase, case) draws.".into()
+        "The full table, each cell on seeded random values: 3 kinds x 3 target orders x {set_order, set_order_clone} with requested-name lists containing duplicates; all From impls (owned and borrowed) and the raising constructors new / new_from (requested names, unit sensitivity, zero Hessian, shared list); 11 binary operators (+ - * / % == < <= > >= abs_sub) x all 9 kind pairings x ownership (mixed Dual/Dual2 pairings must refuse), Number.f64 / f64.Number forms, unary neg/pow/exp/log/norm_cdf/inv_norm_cdf/abs, Sum, Zero/One. Results are compared bit-for-bit (kind, value, variable list, derivative arrays) with the same operation executed directly on the contained types. distinct_nontrivial = distinct (phase, case) draws.".into()
     }
     fn assumptions(&self) -> Vec<String> {
         vec!["the contained-type operations themselves are judged by C01/C02/C19".into(), "a panic or an Err both count as refusal for Dual x Dual2 pairings".into()]
